@@ -57,3 +57,47 @@ Theorem c14_destroy_progress : forall ha ops,
   ast g = ADying -> count g = npend (srcs g) + 1 /\ queue g = [] /\ npend (srcs g) > 0.
 Proof. exact aggr_dying_accounting. Qed.
 Print Assumptions c14_destroy_progress.
+
+(* per_source_order: for any number of sources (scripts without YieldEcho), any access sequence and any completion
+   schedule, the values delivered from source j - in delivery order - are a prefix of the values source j's script
+   yields (nothing skipped, repeated, reordered or invented within a source) *)
+Theorem c14_per_source_order : forall ha scs ops, Forall (fun sc => has_echo sc = false) scs ->
+  forall j, j < length scs ->
+  exists rest, dj (deliv ha (build_state scs) ops) j ++ rest = src_values (nth j scs []).
+Proof. exact aggr_per_source_order. Qed.
+Print Assumptions c14_per_source_order.
+
+(* union: once the aggregate has ended, every source's complete value sequence has been delivered, each value exactly
+   once and in the source's order *)
+Theorem c14_union : forall ha scs ops, Forall (fun sc => has_echo sc = false) scs ->
+  ast (snd (run_from ha (build_state scs) ops)) = AFinal ->
+  forall j, j < length scs ->
+  dj (deliv ha (build_state scs) ops) j = src_values (nth j scs []).
+Proof. exact aggr_union. Qed.
+Print Assumptions c14_union.
+
+(* the delivered values are exactly the value answers the consumer observes, in the same order *)
+Theorem c14_delivered_is_observed : forall ha ops g,
+  map snd (deliv ha g ops) = vals_of ops (fst (run_from ha g ops)).
+Proof. exact aggr_deliv_is_observed. Qed.
+Print Assumptions c14_delivered_is_observed.
+
+(* argument_routing: an access of an aggregate parked at the yield of source i resumes exactly source i, which
+   receives exactly that access's argument *)
+Theorem c14_argument_routing : forall ha g y a i s1 b e,
+  ast g = AYield i -> idle g = true -> style_ok ha y = true ->
+  charge (get_src (srcs g) i) a = Some (s1, b, e) ->
+  o_ev (snd (step ha g (OAccess y a))) = tag_ev i e /\ Forall (arg_is a) e /\ s_arg s1 = a.
+Proof. exact aggr_argument_routing. Qed.
+Print Assumptions c14_argument_routing.
+
+(* non-vacuity: three sources (one suspending, one throwing) built through the ops, read to the end: the state reached
+   by the Source/Build ops is build_state, the union is delivered, the exception comes last *)
+Example c14_nonvacuous :
+  let scs := [[IYield 0; IYield 1]; [IAwaitPending 1; IYield 1000]; [IYield 2000; IThrow 7]] in
+  let ops := [OAccess 0 0; OAccess 3 0; OAccess 2 0; OAccess 0 0; OComplete 1 5; OAccess 4 0; OAccess 0 0] in
+  snd (run_from false agg0 (map OSource scs ++ [OBuild])) = build_state scs /\
+  map o_res (fst (run_from false (build_state scs) ops)) = [RVal 0; RVal 2000; RVal 1; RPend; RVal 1000; RExc 7; REndT] /\
+  deliv false (build_state scs) ops = [(0%nat, 0%Z); (2%nat, 2000%Z); (0%nat, 1%Z); (1%nat, 1000%Z)] /\
+  ast (snd (run_from false (build_state scs) ops)) = AFinal.
+Proof. vm_compute. repeat split; reflexivity. Qed.
